@@ -111,7 +111,9 @@ var settings = []setting{
 	{"SampleCacheConfig", "DroppedSize", "int", "SampleCache.DroppedSize", 2000000, "", nil, nil},
 	{"SampleCacheConfig", "SizeCheckInterval", "dur", "SampleCache.SizeCheckInterval", "20s", "", nil, nil},
 	// the alternative v1 spelling of the same group (configMeta.yaml: v1group SampleCacheConfig/SampleCache — v1 documented
-	// one name and read the other), so every alternative group name the converter claims to read is exercised
+	// one name and read the other), so every alternative group name the converter claims to read is exercised.
+	// v1 (viper) read [SampleCache] and ignored an additional [SampleCacheConfig] table, so a file carrying both tables with
+	// different keys is a valid v1 file whose [SampleCache] values were the effective ones (thorough pairs; FINDING.md defect E)
 	{"SampleCache", "KeptSize", "int", "SampleCache.KeptSize", 30000, "", nil, nil},
 	{"SampleCache", "DroppedSize", "int", "SampleCache.DroppedSize", 3000000, "", nil, nil},
 	{"SampleCache", "SizeCheckInterval", "dur", "SampleCache.SizeCheckInterval", "30s", "", nil, nil},
